@@ -1,167 +1,121 @@
 (* Props/C18.v -- property theorems only (each closed by [exact lemma]).  PARTIAL:
-   value independence of histories and schedules at the granularity of the
-   model's steps; the Go memory model and the race detector's verdict are
-   runtime matters (searched by the check, not proved).
+   independence of histories and schedules at the granularity of the model's
+   steps; the Go memory model and the race detector's verdict are runtime
+   matters (searched by the check, not proved).
 
-   Reading guide: [step fixinit g x] evaluates request x (expression,
-   document, formats, which library objects are re-used) in global state g;
-   the abstract functions parse_core / dec_sem / sem / msg are universally
+   Reading guide: [step g x] evaluates request x (expression, document,
+   formats, which library objects are re-used) in global state g; the
+   abstract functions parse_core / dec_sem / sem / msg are universally
    quantified, so the theorems hold whatever parsing, decoding and evaluating
    compute from the values the model hands them.  The output is a pair
    (value part: bytes + error class, message part: error text).
-   fixinit = false is the code as pinned; true = Init also clears `finished`
-   in the TOML and Lua decoders. *)
+   The model is the code after the repairs in /repo (envsubst operations carry
+   their own type name; load_* operators create a decoder per use; Init clears
+   `finished` in the TOML and Lua decoders). *)
 From YQ Require Import Base.Str Model.History Model.HistoryInst Proofs.HistoryProofs.
 
-(* The value part of the first evaluation of a process is the pure specification
-   (parse, decode with leading-content pre-processing, evaluate under the
-   request's preferences): no hidden input. *)
+(* The first evaluation of a process yields the pure specification (parse,
+   decode with leading-content pre-processing, evaluate under the request's
+   preferences; message from the expression's own type names): no hidden input. *)
 Theorem C18_function_of_inputs :
-  forall (C Pf D DOCS V M : Type) (parse_core : N -> C) (parse_fails : N -> bool) (parse_err : N -> V) (parse_msg : N -> M) (env_toks : N -> list etok)
-         (dec_sem : fmt -> bool -> D -> DOCS) (dec_eof : DOCS) (dec_fails : fmt -> D -> bool) (sem : C -> Pf -> DOCS -> V)
-         (msg : C -> Pf -> DOCS -> list str -> str -> M) (default_prefs : Pf) fixinit x,
-  q_reuse_dec x = false \/ True ->
-  fst (last_out parse_core parse_fails parse_err parse_msg env_toks dec_sem dec_eof dec_fails sem msg default_prefs fixinit [] x)
-  = spec_value parse_core parse_fails parse_err dec_sem sem default_prefs x.
+  forall (C Pf D DOCS V M : Type) (parse_core : N -> C) (parse_fails : N -> bool) (parse_err : N -> V) (parse_msg : N -> M)
+         (env_toks : N -> list etok) (dec_sem : fmt -> bool -> D -> DOCS) (dec_eof : DOCS) (dec_fails : fmt -> D -> bool)
+         (sem : C -> Pf -> DOCS -> V) (msg : C -> Pf -> DOCS -> list str -> M) (default_prefs : Pf) x,
+  last_out parse_core parse_fails parse_err parse_msg env_toks dec_sem dec_eof dec_fails sem msg default_prefs [] x
+  = spec_out C Pf D DOCS V M parse_core parse_fails parse_err parse_msg env_toks dec_sem sem msg default_prefs x.
 Proof. exact fresh_is_spec. Qed.
 Print Assumptions C18_function_of_inputs.
 
-(* After ANY two histories the value part of the same request is the same,
-   provided the request configures its preferences (as cmd does) and, if it
-   re-uses a decoder instance, that decoder's Init re-initialises what Decode
-   reads: every format but TOML and Lua, and YAML only without
-   EvaluateTogether.  (The excluded cases are refuted below.) *)
+(* After ANY two histories the whole output (value and message) of the same
+   request is the same, provided the request configures its preferences (as
+   cmd does) and does not re-use a YAML decoder built for eval-all (refuted
+   below: firstFile). *)
 Theorem C18_history_independent :
-  forall (C Pf D DOCS V M : Type) (parse_core : N -> C) (parse_fails : N -> bool) (parse_err : N -> V) (parse_msg : N -> M) (env_toks : N -> list etok)
-         (dec_sem : fmt -> bool -> D -> DOCS) (dec_eof : DOCS) (dec_fails : fmt -> D -> bool) (sem : C -> Pf -> DOCS -> V)
-         (msg : C -> Pf -> DOCS -> list str -> str -> M) (default_prefs : Pf) fixinit h1 h2 x,
-  ok_req Pf D fixinit x ->
-  fst (last_out parse_core parse_fails parse_err parse_msg env_toks dec_sem dec_eof dec_fails sem msg default_prefs fixinit h1 x)
-  = fst (last_out parse_core parse_fails parse_err parse_msg env_toks dec_sem dec_eof dec_fails sem msg default_prefs fixinit h2 x).
+  forall (C Pf D DOCS V M : Type) (parse_core : N -> C) (parse_fails : N -> bool) (parse_err : N -> V) (parse_msg : N -> M)
+         (env_toks : N -> list etok) (dec_sem : fmt -> bool -> D -> DOCS) (dec_eof : DOCS) (dec_fails : fmt -> D -> bool)
+         (sem : C -> Pf -> DOCS -> V) (msg : C -> Pf -> DOCS -> list str -> M) (default_prefs : Pf) h1 h2 x,
+  ok_req Pf D x ->
+  last_out parse_core parse_fails parse_err parse_msg env_toks dec_sem dec_eof dec_fails sem msg default_prefs h1 x
+  = last_out parse_core parse_fails parse_err parse_msg env_toks dec_sem dec_eof dec_fails sem msg default_prefs h2 x.
 Proof. exact history_independent. Qed.
 Print Assumptions C18_history_independent.
 
-(* per-field lemmas of the invariant *)
-Theorem C18_init_resets_finished : forall fixinit f d, resets fixinit f -> d_finished (init fixinit f d) = false.
+(* per-field lemmas of the invariant: Init of every decoder (TOML and Lua included) *)
+Theorem C18_init_resets_finished : forall f d, d_finished (init f d) = false.
 Proof. exact init_resets_finished. Qed.
 Print Assumptions C18_init_resets_finished.
 
-Theorem C18_init_resets_read_anything : forall fixinit f d, resets fixinit f -> d_read_anything (init fixinit f d) = false.
+Theorem C18_init_resets_read_anything : forall f d, d_read_anything (init f d) = false.
 Proof. exact init_resets_read_anything. Qed.
 Print Assumptions C18_init_resets_read_anything.
 
 Theorem C18_first_file_read_only_by_yaml_together :
-  forall (D DOCS : Type) (dec_sem : fmt -> bool -> D -> DOCS) (dec_eof : DOCS) (dec_fails : fmt -> D -> bool) fixinit f together d1 d2 text,
-  d_finished d1 = d_finished d2 -> (f = FYaml -> together = false) ->
-  snd (decode_run dec_sem dec_eof dec_fails fixinit f together d1 text) = snd (decode_run dec_sem dec_eof dec_fails fixinit f together d2 text).
+  forall (D DOCS : Type) (dec_sem : fmt -> bool -> D -> DOCS) (dec_eof : DOCS) (dec_fails : fmt -> D -> bool) f together d1 d2 text,
+  (f = FYaml -> together = false) ->
+  snd (decode_run dec_sem dec_eof dec_fails f together d1 text) = snd (decode_run dec_sem dec_eof dec_fails f together d2 text).
 Proof. exact first_file_read_only_by_yaml_together. Qed.
 Print Assumptions C18_first_file_read_only_by_yaml_together.
 
-(* envsubstOpType.Type, xmlEncoder.leadingContent, the RHS slot sortOperator
-   writes and the Type copies inside kept trees are written by steps and never
-   read by the value part: two global states that differ only there give the
-   same value. *)
+(* xmlEncoder.leadingContent and the RHS slot sortOperator writes in kept
+   trees are written by steps and never read by an output: two global states
+   that differ only there (and in which trees are kept) give the same output. *)
 Theorem C18_unread_fields :
-  forall (C Pf D DOCS V M : Type) (parse_core : N -> C) (parse_fails : N -> bool) (parse_err : N -> V) (parse_msg : N -> M) (env_toks : N -> list etok)
-         (dec_sem : fmt -> bool -> D -> DOCS) (dec_eof : DOCS) (dec_fails : fmt -> D -> bool) (sem : C -> Pf -> DOCS -> V)
-         (msg : C -> Pf -> DOCS -> list str -> str -> M) fixinit (g1 g2 : G C Pf) x,
-  Inv C Pf parse_core parse_fails g1 -> Inv C Pf parse_core parse_fails g2 -> same_but_unread C Pf g1 g2 ->
-  fst (snd (step parse_core parse_fails parse_err parse_msg env_toks dec_sem dec_eof dec_fails sem msg fixinit g1 x))
-  = fst (snd (step parse_core parse_fails parse_err parse_msg env_toks dec_sem dec_eof dec_fails sem msg fixinit g2 x)).
+  forall (C Pf D DOCS V M : Type) (parse_core : N -> C) (parse_fails : N -> bool) (parse_err : N -> V) (parse_msg : N -> M)
+         (env_toks : N -> list etok) (dec_sem : fmt -> bool -> D -> DOCS) (dec_eof : DOCS) (dec_fails : fmt -> D -> bool)
+         (sem : C -> Pf -> DOCS -> V) (msg : C -> Pf -> DOCS -> list str -> M) (g1 g2 : G C Pf) x,
+  Inv C Pf parse_core parse_fails env_toks g1 -> Inv C Pf parse_core parse_fails env_toks g2 -> same_but_unread C Pf g1 g2 ->
+  snd (step parse_core parse_fails parse_err parse_msg env_toks dec_sem dec_eof dec_fails sem msg g1 x)
+  = snd (step parse_core parse_fails parse_err parse_msg env_toks dec_sem dec_eof dec_fails sem msg g2 x).
 Proof. exact unread_fields. Qed.
 Print Assumptions C18_unread_fields.
 
 (* evaluating on a parsed tree kept from earlier = evaluating on a fresh parse *)
 Theorem C18_reuse_tree :
-  forall (C Pf D DOCS V M : Type) (parse_core : N -> C) (parse_fails : N -> bool) (parse_err : N -> V) (parse_msg : N -> M) (env_toks : N -> list etok)
-         (dec_sem : fmt -> bool -> D -> DOCS) (dec_eof : DOCS) (dec_fails : fmt -> D -> bool) (sem : C -> Pf -> DOCS -> V)
-         (msg : C -> Pf -> DOCS -> list str -> str -> M) fixinit (g : G C Pf) x,
-  Inv C Pf parse_core parse_fails g ->
-  fst (snd (step parse_core parse_fails parse_err parse_msg env_toks dec_sem dec_eof dec_fails sem msg fixinit g (with_reuse Pf D true x)))
-  = fst (snd (step parse_core parse_fails parse_err parse_msg env_toks dec_sem dec_eof dec_fails sem msg fixinit g (with_reuse Pf D false x))).
+  forall (C Pf D DOCS V M : Type) (parse_core : N -> C) (parse_fails : N -> bool) (parse_err : N -> V) (parse_msg : N -> M)
+         (env_toks : N -> list etok) (dec_sem : fmt -> bool -> D -> DOCS) (dec_eof : DOCS) (dec_fails : fmt -> D -> bool)
+         (sem : C -> Pf -> DOCS -> V) (msg : C -> Pf -> DOCS -> list str -> M) (g : G C Pf) x,
+  Inv C Pf parse_core parse_fails env_toks g ->
+  snd (step parse_core parse_fails parse_err parse_msg env_toks dec_sem dec_eof dec_fails sem msg g (with_reuse Pf D true x))
+  = snd (step parse_core parse_fails parse_err parse_msg env_toks dec_sem dec_eof dec_fails sem msg g (with_reuse Pf D false x)).
 Proof. exact reuse_tree. Qed.
 Print Assumptions C18_reuse_tree.
 
 (* Two evaluations on separate evaluators / documents / decoders / printers,
-   interleaved by ANY schedule at the granularity of accesses to the two
-   shared objects (envsubstOpType.Type, the load_* decoder singletons): what
-   each one's load operators decode is what they decode alone, provided the
-   two do not use the same load_* decoder.  (Nothing else shared is read by a
-   value: C18_unread_fields.) *)
+   interleaved by ANY schedule at the granularity of accesses to shared
+   objects: since no step writes a shared object, each ends in the private
+   state it reaches alone. *)
 Theorem C18_interleave :
-  forall (D : Type) sch (la lb : list (action D)) s pa pb,
-  disjoint_load D la lb -> disjoint_load D lb la ->
-  p_loaded (snd (fst (interleave sch s pa pb la lb))) = p_loaded (snd (acts s pa la))
-  /\ p_loaded (snd (interleave sch s pa pb la lb)) = p_loaded (snd (acts s pb lb)).
+  forall (Pf : Type) sch (la lb : list action) (s : Pf) pa pb,
+  snd (fst (interleave sch s pa pb la lb)) = snd (acts s pa la)
+  /\ snd (interleave sch s pa pb la lb) = snd (acts s pb lb).
 Proof. exact interleave_both. Qed.
 Print Assumptions C18_interleave.
 
 (* ------------------------------------------------------------------ *)
-(* refutations on the faithful model                                    *)
-(* ------------------------------------------------------------------ *)
 Definition rq (e : N) (f : fmt) (text : N) (together reuse_dec : bool) : request N N :=
   mkReq e false f text together reuse_dec (Some 0) [].
 
-(* A re-used TOML (or Lua) decoder yields nothing the second time: Init does not clear `finished`. *)
-Theorem C18_toml_decoder_reuse_refuted :
-  fst (last_out (fun e : N => e) (fun _ => false) i_perr i_pmsg (toks_of []) i_dec_sem [] (fun _ _ => false) i_sem i_msg 0 false [rq 1 FToml 7 false true] (rq 1 FToml 8 false true))
-    = [1; 0]
-  /\ fst (last_out (fun e : N => e) (fun _ => false) i_perr i_pmsg (toks_of []) i_dec_sem [] (fun _ _ => false) i_sem i_msg 0 false [] (rq 1 FToml 8 false true))
-    = [1; 0; 7; 1; 8]
-  /\ fst (last_out (fun e : N => e) (fun _ => false) i_perr i_pmsg (toks_of []) i_dec_sem [] (fun _ _ => false) i_sem i_msg 0 true [rq 1 FToml 7 false true] (rq 1 FToml 8 false true))
-    = [1; 0; 7; 1; 8].
-Proof. repeat split; vm_compute; reflexivity. Qed.
-Print Assumptions C18_toml_decoder_reuse_refuted.
-
-(* A re-used YAML decoder with EvaluateTogether no longer pre-processes leading content (firstFile stays false). *)
+(* remaining refutation: a re-used YAML decoder with EvaluateTogether no longer
+   pre-processes leading content (firstFile stays false) *)
 Theorem C18_yaml_together_reuse_refuted :
-  fst (last_out (fun e : N => e) (fun _ => false) i_perr i_pmsg (toks_of []) i_dec_sem [] (fun _ _ => false) i_sem i_msg 0 false [rq 1 FYaml 7 true true] (rq 1 FYaml 8 true true))
+  fst (last_out (fun e : N => e) (fun _ => false) i_perr i_pmsg (toks_of []) i_dec_sem [] (fun _ _ => false) i_sem i_msg 0 [rq 1 FYaml 7 true true] (rq 1 FYaml 8 true true))
     = [1; 0; 0; 0; 8]
-  /\ fst (last_out (fun e : N => e) (fun _ => false) i_perr i_pmsg (toks_of []) i_dec_sem [] (fun _ _ => false) i_sem i_msg 0 false [] (rq 1 FYaml 8 true true))
+  /\ fst (last_out (fun e : N => e) (fun _ => false) i_perr i_pmsg (toks_of []) i_dec_sem [] (fun _ _ => false) i_sem i_msg 0 [] (rq 1 FYaml 8 true true))
     = [1; 0; 0; 1; 8].
 Proof. repeat split; vm_compute; reflexivity. Qed.
 Print Assumptions C18_yaml_together_reuse_refuted.
 
-(* The message part is history dependent: an error message that prints
-   OperationType.Type of an envsubst node shows what the LAST lexed
-   envsubst(...) left in the global. *)
-Theorem C18_message_history_refuted :
-  snd (last_out (fun e : N => e) (fun _ => false) i_perr i_pmsg (toks_of [(2, [TokOpt [sfx_ne]])]) i_dec_sem [] (fun _ _ => false) i_sem i_msg 0 false [rq 2 FYaml 7 false false] (rq 1 FYaml 7 false false))
-    = c_envsubst ++ sfx_ne
-  /\ snd (last_out (fun e : N => e) (fun _ => false) i_perr i_pmsg (toks_of [(2, [TokOpt [sfx_ne]])]) i_dec_sem [] (fun _ _ => false) i_sem i_msg 0 false [] (rq 1 FYaml 7 false false))
-    = c_envsubst.
-Proof. repeat split; vm_compute; reflexivity. Qed.
-Print Assumptions C18_message_history_refuted.
-
-(* Schedules: two evaluations that use the SAME load_* decoder singleton can
-   read each other's file; and the Type copy an evaluation takes while lexing
-   envsubst(ne) can be the other's. *)
-Theorem C18_interleave_shared_load_refuted :
-  let la := [ALoadInit LYaml 1; ALoadDecode LYaml] in
-  let lb := [ALoadInit LYaml 2; ALoadDecode LYaml] in
-  let s := mkSh c_envsubst (fun _ => None) in
-  p_loaded (snd (fst (interleave [true; false; true; false] s priv0 priv0 la lb))) = [Some 2]
-  /\ p_loaded (snd (acts s priv0 la)) = [Some 1].
-Proof. repeat split; vm_compute; reflexivity. Qed.
-Print Assumptions C18_interleave_shared_load_refuted.
-
-Theorem C18_interleave_type_copy_refuted :
-  let la := [ASetType; AAppendType sfx_ne; AReadType] in
-  let lb := [ASetType (D:=N); AAppendType sfx_nu; AReadType] in
-  let s := mkSh c_envsubst (fun _ => None) in
-  p_types (snd (fst (interleave [true; true; false; true] s priv0 priv0 la lb))) = [c_envsubst]
-  /\ p_types (snd (acts s priv0 la)) = [c_envsubst ++ sfx_ne].
-Proof. repeat split; vm_compute; reflexivity. Qed.
-Print Assumptions C18_interleave_type_copy_refuted.
-
-(* non-vacuity: a request that re-uses tree and decoder meets ok_req, and its value after a history is the specification *)
+(* non-vacuity: a request that re-uses tree and (TOML) decoder meets ok_req; after a history
+   that used the same decoder and lexed envsubst(ne) its output is the specification *)
 Example C18_example :
-  let x := mkReq 1 true FJson 8 false true (Some 3) [] in
-  ok_req N N false x
-  /\ fst (last_out (fun e : N => e) (fun _ => false) i_perr i_pmsg (toks_of []) i_dec_sem [] (fun _ _ => false) i_sem i_msg 0 false [rq 1 FToml 7 false true; x; rq 2 FJson 9 false true] x)
-     = spec_value (fun e : N => e) (fun _ => false) i_perr i_dec_sem i_sem 0 x.
+  let x := mkReq 1 true FToml 8 false true (Some 3) [] in
+  let tb := [(1, [TokPlain]); (2, [TokOpt [sfx_ne]])] in
+  ok_req N N x
+  /\ last_out (fun e : N => e) (fun _ => false) i_perr i_pmsg (toks_of tb) i_dec_sem [] (fun _ _ => false) i_sem i_msg 0
+       [rq 2 FToml 7 false true; x; rq 2 FJson 9 false true] x
+     = ([1; 3; 7; 1; 8], c_envsubst ++ [32]).
 Proof.
   cbv zeta. split.
-  - split; [discriminate|]. right. split; [right; split; discriminate|discriminate].
+  - split; [discriminate|]. right. discriminate.
   - vm_compute. reflexivity.
 Qed.
